@@ -34,6 +34,20 @@ class Box(object):
     """a plain object with attributes (importable, so jsonpickle restores it)"""
 
 
+class Fragile(object):
+    """a value that decodes from the store but cannot be encoded again: its serialised state leaves out a derived attribute
+    that decoding does not rebuild (a recording made by an older version of a class looks like this to a newer one)"""
+
+    def __init__(self, items):
+        self.items = list(items)
+        self._index = dict((x, i) for i, x in enumerate(items))
+
+    def __getstate__(self):
+        state = dict(self.__dict__)
+        del state['_index']
+        return state
+
+
 class BoxError(Exception):
     """an exception carrying mutable state in attributes (the serializer keeps the attributes and drops the arguments); an
     intercepted input whose value is one of these RAISES it, the operation catches it and may mutate what it carries"""
@@ -317,7 +331,59 @@ class C11(Prop):
 
     def generate(self, rng, tier):
         n = 2000 if tier == "quick" else 20000
-        return [self.gen_case(rng) for _ in range(n)]
+        cases = [self.gen_case(rng) for _ in range(n)]
+        # stored values whose copy-on-read FAILS (not modelled: the oracle is the statement itself): whatever a read does with
+        # such a value - raise, or hand something out - the stored data cannot be altered through it
+        for cassette in ('mem', 'file'):
+            for reads in (['get', 'get'], ['item', 'get'], ['get', 'refetch', 'get'], ['play', 'play'], ['get', 'play']):
+                cases.append({'kind': 'fragile', 'cassette': cassette, 'reads': reads,
+                              'items': [rng.choice(['a', 'b', 'c']) + str(i) for i in range(rng.randint(1, 3))]})
+        return cases
+
+    def run_fragile(self, case):
+        from playback.tape_recorder import TapeRecorder
+        tmp = tempfile.mkdtemp(prefix='c11f')
+        try:
+            cassette = self.make_cassette(case['cassette'], tmp)
+            rec = cassette.create_new_recording('Frag')
+            key = 'input: load args={"py/tuple": []}, kwargs=[]'
+            rec.set_data(key, {'value': Fragile(case['items'])})
+            rec.set_data(OP_OUT, {'args': ['done'], 'kwargs': {}})
+            cassette.save_recording(rec)
+            tr = TapeRecorder(cassette)
+
+            class Op(object):
+                @tr.intercept_input('load')
+                def load(self):
+                    return Fragile(case['items'])
+
+                @tr.operation()
+                def run(self):
+                    v = self.load()
+                    seen = list(v.items)
+                    v.items.append('MUTATED-BY-REPLAYED-CODE')
+                    return seen
+            fetched = cassette.get_recording(rec.id)
+            out = []
+            for how in case['reads']:
+                try:
+                    if how == 'refetch':
+                        fetched = cassette.get_recording(rec.id)
+                        out.append(['refetch', 'ok'])
+                        continue
+                    if how == 'play':
+                        box = []
+                        tr.play(rec.id, lambda recording: box.append(Op().run()))
+                        out.append([how, 'items', box[0]])
+                        continue
+                    v = fetched.get_data(key) if how == 'get' else fetched[key]
+                    out.append([how, 'items', list(v['value'].items)])
+                    v['value'].items.append('MUTATED-BY-READER')
+                except Exception as ex:
+                    out.append([how, 'raised', type(ex).__name__])
+            return {'reads': out}
+        finally:
+            shutil.rmtree(tmp, ignore_errors=True)
 
     _obj = True
 
@@ -553,6 +619,8 @@ class C11(Prop):
         return S3TapeCassette('bucket-c11', key_prefix='pre', read_only=False)
 
     def run_impl(self, case):
+        if case.get('kind') == 'fragile':
+            return self.run_fragile(case)
         from playback.tape_recorder import TapeRecorder, RecordingParameters
         tmp = tempfile.mkdtemp(prefix='c11')
         try:
@@ -789,6 +857,8 @@ class C11(Prop):
                     steps.append({'op': 'get', 'rec': ns + 'orig', 'key': st['key'], 'sub': [], 'var': ns + st['var']})
 
     def model_requests(self, case):
+        if case.get('kind') == 'fragile':
+            return []
         steps = []
         self.compile_body(case, 'rec', '', steps)
         steps.append({'op': 'new', 'tree': {'a': 's:done'}, 'var': '$ret'})
@@ -838,9 +908,13 @@ class C11(Prop):
         return [{'m': 'c11.run', 'copy': case['copy'], 'direct': False, 'steps': steps}]
 
     def model_transcript(self, case, answers):
+        if case.get('kind') == 'fragile':
+            return None
         return [canon_tree(x) for x in answers[0]]
 
     def impl_view(self, case, impl):
+        if case.get('kind') == 'fragile':
+            return None
         if 'error' in impl:
             return impl['error']
         return [o['val'] for o in impl['obs']]
@@ -849,6 +923,13 @@ class C11(Prop):
     # the property, stated directly
     # ------------------------------------------------------------------------------------------------------
     def oracle(self, case, impl):
+        if case.get('kind') == 'fragile':
+            fails = []
+            for i, r in enumerate(impl['reads']):
+                if r[1] == 'items' and r[2] != case['items']:
+                    fails.append('stored value whose copy fails: read %d (%s) handed out items %r, the recording was saved with %r '
+                                 '(reads so far: %r)' % (i, r[0], r[2], case['items'], impl['reads'][:i]))
+            return fails
         if 'error' in impl:
             return ['recording was not saved: ' + impl['error']]
         fails = []
@@ -917,9 +998,13 @@ class C11(Prop):
 
     # ------------------------------------------------------------------------------------------------------
     def nontrivial(self, case, impl):
+        if case.get('kind') == 'fragile':
+            return True
         return 'obs' in impl and any(o['tag'][0] == 'mut' and o['val'] is True for o in impl['obs'])
 
     def features(self, case, impl):
+        if case.get('kind') == 'fragile':
+            return ['cassette:' + case['cassette'], 'stored-value-whose-copy-fails'] + ['fragile-read:%s:%s' % (r[0], r[1]) for r in impl['reads']]
         out = ['cassette:' + case['cassette'], 'copy:%s' % case['copy']]
         if 'obs' not in impl:
             return out
@@ -943,9 +1028,13 @@ class C11(Prop):
         return out
 
     def sample_repr(self, case):
+        if case.get('kind') == 'fragile':
+            return case
         return {'cassette': case['cassette'], 'copy': case['copy'], 'body': case['body'][:6], 'script': case['script'][:8]}
 
     def shrink(self, case):
+        if case.get('kind') == 'fragile':
+            return
         sc = case['script']
         for i in range(len(sc)):
             if sc[i]['s'] in ('mut', 'set', 'new', 'meta', 'obs', 'lookup', 'direct') or (sc[i]['s'] == 'get'):
